@@ -37,13 +37,15 @@ CLAIMED = {
         "Hypothesis type-directed generation; model-free differential oracle between the two hand-mirrored passes (try_convert vs collect_errors) at every sub-converter",
         "For every generated (type, value) and every (sub-type, sub-value) reached by walking the value, the fast pass raises "
         "ParseInterrupt iff the diagnostic pass returns an error tree, and convert() never raises the 'bug of the Converter' RuntimeError. "
+        "A third suite feeds the condition grammar of C13 (conditions must see the converted value in both passes). "
         "The evidence lists which converter classes were exercised and how often.",
         "No reference model needed; trusts only the walk of (sub-type, sub-value) pairs in pv/tg.py. User-written converters are out of scope.",
         "DESIGN.md section 5, C03",
     ),
     'C04': (
         "Hypothesis type-directed generation with adversarial leaves over five entry points + JSON/YAML readers (exception-class oracle, bucketed by innermost pane frame); exhaustive sweep of unsupported-type forms x wrappers",
-        "Every call either returns or raises ConvertError; any other exception is a violation keyed by (exception type, innermost pane frame). "
+        "Every call either returns or raises ConvertError; any other exception is a violation keyed by (exception type, innermost pane frame); values include "
+        "numpy arrays and instances of subclasses of interchange types, and YAML documents made of YAML's own scalar kinds (timestamps, sets, binary). "
         "18 unsupported type forms x 11 embedding wrappers are enumerated: make_converter and from_data must raise TypeError/UnsupportedAnnotation "
         "identically for every value; every supported type of the grammar must build.",
         "Values are interchange data with ints under 1000 digits. Trusts the classification of type forms into supported/unsupported taken from docs/index.md.",
@@ -79,9 +81,10 @@ CLAIMED = {
     'C08': (
         "Hypothesis generation of reachable error trees (multi-fault mutations); totality, determinism and containment oracle over the rendered text",
         "Every error tree reachable from the generator is rendered: rendering returns, is repeatable, a deep copy renders to the same lines, and the "
-        "text contains every path component in nesting order followed by each leaf's expectation, every missing/unexpected/duplicate name, the "
-        "offending value of every leaf outside a sum (one per sum), and the message of every causing exception.",
-        "Containment is substring-in-order, so wording/layout changes are not flagged; determinism across PYTHONHASHSEED values is not asserted.",
+        "text contains every path component in nesting order followed by each leaf's expectation (a product node that only lacks fields or has unknown keys is a leaf), every missing/unexpected/duplicate name, the "
+        "offending value of every leaf outside a sum (one per sum), and the message of every causing exception. Batches of failing conversions are also rendered "
+        "in fresh interpreters under two other PYTHONHASHSEED values and must give the same text.",
+        "Containment is substring-in-order, so wording/layout changes are not flagged.",
         "DESIGN.md section 5, C08",
     ),
     'C09': (
@@ -163,7 +166,7 @@ CLAIMED = {
     'C18': (
         "Hypothesis enumeration-by-sampling of subsets of the seven handler sources x call forms x positions x directions; oracle = the documented precedence order coded as a list, observed through source-labelled converters",
         "Every source converts the marker type to a value naming the source; the observed label at each position (direct field, List, Dict, Optional, "
-        "Tuple, nested dataclass, subclass, top-level container, inside a third-party generic container served by a registered handler) and in both directions must be the first present source in the documented order; "
+        "Tuple, nested dataclass, subclass, top-level container, inside a third-party generic container served by a registered handler, untyped positions on output) and in three directions (from_data, into_data, construction of the containing class) must be the first present source in the documented order; "
         "declining handlers (NotImplemented / NotImplementedError) are skipped; mapping-form handlers match only the exact unparameterised type; "
         "global handlers sit after the scalar built-ins and the protocol, before structural built-ins.",
         "A fresh marker class per case keeps the converter cache out of the picture; one global dispatcher is registered per process.",
@@ -181,9 +184,9 @@ CLAIMED = {
     'C20': (
         "exhaustive enumeration of a finite name set + Hypothesis search, against an independent canonical renderer",
         "Every 1-3 word name over a 3-letter alphabet (47 988 names) is swept exhaustively through all 5 styles and all 25 style "
-        "pairs, including injectivity per style; longer names, ill-formed names and the dataclass-level observations are searched "
+        "pairs, including injectivity per style; longer names, names over Latin-1 / Cyrillic / Greek letters with a one-to-one case mapping, ill-formed names and the dataclass-level observations are searched "
         "with Hypothesis. Held-on-everything-explored, not a proof for all identifiers.",
-        "Trusts the 3-line reference renderer in pv/props/c20.py and Python's str methods; ASCII names only.",
+        "Trusts the 3-line reference renderer in pv/props/c20.py and Python's str methods; letters whose case mapping is not one-to-one (sharp s, dotless i, Greek sigma) are outside the domain.",
         "DESIGN.md section 5, C20",
     ),
 }
